@@ -375,6 +375,26 @@ def _k_period(c) -> CaseInfo:
     p = PeriodBuilder(**f).build()
     need(comps(p) == {u: f.get(u, 0) for u in ALL_UNITS}, "builder/build")
     need(p.to_builder().build() == p and hash(p.to_builder().build()) == hash(p), "to_builder-roundtrip")
+    # the builder's unit indexer reads and writes the same ten fields, one unit at a time
+    b = p.to_builder()
+    b2 = PeriodBuilder()
+    for u in ALL_UNITS:
+        flag = units_flag([u])
+        need(b[flag] == f.get(u, 0), f"builder/getitem/{u}", f"{b[flag]} != {f.get(u, 0)}")
+        b2[flag] = f.get(u, 0)
+    need(b2.build() == p, "builder/setitem", f"{comps(b2.build())} != {comps(p)}")
+    try:
+        b[units_flag(["days", "hours"])]
+    except ValueError:
+        pass
+    else:
+        raise Mismatch("builder/getitem-accepts-combined-units", "days|hours")
+    # static and operator spellings of period arithmetic agree with component-wise arithmetic
+    from pyoda_time import Period
+
+    q = PeriodBuilder(**{u: (v * 3 + 1) for u, v in f.items()}).build()
+    for nm, r, sign_ in (("add", p + q, 1), ("Period.add", Period.add(p, q), 1), ("sub", p - q, -1), ("Period.subtract", Period.subtract(p, q), -1)):
+        need(comps(r) == {u: f.get(u, 0) + sign_ * comps(q)[u] for u in ALL_UNITS}, f"period/{nm}", f"{comps(r)}")
     fixed = sum(f.get(u, 0) * NS[u] for u in TIME_UNITS) + f.get("days", 0) * DAY + f.get("weeks", 0) * 7 * DAY
     n = p.normalize()
     cn = comps(n)
